@@ -590,6 +590,32 @@ def rule_closedside(ctx) -> RuleResult:
         res.report(f"{f.qualname}|outer-edge-unmasked", f.where(), f.qualname,
                    "np.digitize codes are used without an out-of-range mask on the outer edge: labels beyond the last edge get the code len(bins)-1, "
                    "an index past the last bin")
+    # alphabet clause: pandas intervals are closed 'left', 'right', 'both' or 'neither'.  closed_right is a boolean, so 'both' and 'neither'
+    # fall into one of the two half-open treatments unless the branch names them (a refusal, or an extra mask for labels that sit on an edge)
+    txt = " ".join(norm(x) for x in walk_own(f.node) if isinstance(x, (ast.Compare,)))
+    for member in ("both", "neither"):
+        named = f"'{member}'" in txt or f'"{member}"' in txt
+        res.inst(f"{f.qualname}: the closed side {member!r} is named (refused or handled) in the binning branch: {named}", f"closed|{member}")
+        if not named:
+            side = "right" if member == "both" else "left"
+            res.report(f"{f.qualname}|closed-{member}-not-handled", f"flox/core.py:{dig[0].lineno}", f.qualname,
+                       f"an IntervalIndex closed on {member!r} is binned like a {side}-closed one (closed_right is {member == 'both'}): labels that sit on an edge are "
+                       + ("kept in one bin only" if member == "both" else "counted although pandas.cut drops them")
+                       + "; the branch neither refuses nor handles this member of pandas' closed alphabet")
+    # representation clause: labels and edges reach np.digitize in the SAME representation.  If the edges are viewed / cast (datetime64 edges as
+    # int64) the labels must be converted under the same test, to the same unit: integers of different units compare silently wrong, and a
+    # datetime label against integer edges is a TypeError.
+    for c in dig:
+        b = kwarg(c, "bins") or (c.args[1] if len(c.args) > 1 else None)
+        x = c.args[0] if c.args else kwarg(c, "x")
+        def conv(e):
+            return any(isinstance(y, ast.Call) and isinstance(y.func, ast.Attribute) and y.func.attr in ("view", "astype") for y in ast.walk(e)) if e is not None else False
+        cb, cx = conv(b), conv(x)
+        res.inst(f"{f.qualname}: np.digitize({norm(x)[:30]}, bins={norm(b)[:40]}): edges converted: {cb}; labels converted: {cx}", f"repr|{c.lineno}")
+        if cb and not cx:
+            res.report(f"{f.qualname}|digitize-mixed-representation", f"flox/core.py:{c.lineno}", f.qualname,
+                       f"the edges are converted ('{norm(b)[:50]}') but the labels are handed over as they are ('{norm(x)[:30]}'): datetime64 labels against integer edges "
+                       "raise TypeError for any unit but ns and for NaT, and labels of another unit than the edges are binned silently wrong")
     return res
 
 
